@@ -263,4 +263,27 @@ theorem runInner_inv (c : Consts) (nearest : Bool) (mem0 : Mem α) (steps : List
       apply ih
       simp only [h.reset]
       exact ⟨rfl, rfl, h.2.2⟩
+/-! ### invert-loop -/
+
+theorem invloopCore_spec (table : List Nat) (resetPos : Bool) (st : InvState) (lps len : Int) (canStore : Bool)
+    (hpos : 0 ≤ st.pos) :
+    0 ≤ (invloopCore table resetPos st lps len canStore).1.pos ∧
+    ∀ i, (invloopCore table resetPos st lps len canStore).2 = some i → 0 ≤ len ∧ (1 ≤ len → lps ≤ i ∧ i < lps + len) := by
+  unfold invloopCore
+  generalize hc : st.count + ((table.getD st.speed 0 : Nat) : Int) = count
+  generalize hp0 : (if resetPos then (0 : Int) else st.pos) = pos0
+  have hp0' : 0 ≤ pos0 := by subst hp0; split <;> omega
+  simp only
+  split
+  · rename_i hcond
+    refine ⟨by simp only; split <;> omega, ?_⟩
+    intro i hi
+    cases canStore
+    · simp at hi
+    · simp only [if_true, Option.some.injEq] at hi
+      refine ⟨hcond.1, ?_⟩
+      intro h1; subst hi
+      split <;> omega
+  · exact ⟨hp0', by simp⟩
+
 end Xmp.Wrap
